@@ -411,6 +411,20 @@ func (ex *Exec) convert(p *Path, v Value, to types.Type, pos token.Pos) Value {
 	}
 	switch {
 	case from == "Int" && toS == "Real":
+		if b, ok := v.Ty.Underlying().(*types.Basic); ok {
+			switch b.Kind() {
+			case types.Int64, types.Uint64, types.Int, types.Uint, types.Uintptr:
+				// 64-bit integer -> float64 rounds: exact only up to 2^53
+				f := ex.c.Fun("f64of", []string{"Int"}, "Real")
+				ex.c.Axiom("f64of.exact", "(forall ((x Int)) (! (=> (and (<= (- 9007199254740992) x) (<= x 9007199254740992)) (= ("+f+" x) (to_real x))) :pattern (("+f+" x))))")
+				ex.c.Axiom("f64of.monotone", "(forall ((x Int) (y Int)) (! (=> (<= x y) (<= ("+f+" x) ("+f+" y))) :pattern (("+f+" x) ("+f+" y))))")
+				ex.c.Trust("float64(int64): exact for |x| <= 2^53, monotone otherwise (IEEE rounding not modelled further)")
+				if lit := strings.TrimPrefix(strings.TrimSuffix(strings.TrimPrefix(v.T, "(- "), ")"), ""); isDigits(lit) && len(lit) <= 15 {
+					return Value{"(to_real " + v.T + ")", to}
+				}
+				return Value{app(f, v.T), to}
+			}
+		}
 		return Value{"(to_real " + v.T + ")", to}
 	case from == "Real" && toS == "Int":
 		ex.c.Trust("float->int conversion modelled as to_int (floor); exact for non-negative values")
@@ -611,6 +625,9 @@ func (ex *Exec) indexValue(p *Path, base, idx Value, multi bool, pos token.Pos) 
 		ex.boundsObl(p, idx.T, ex.c.sliceLen(base), pos)
 		v := Value{ex.c.sliceAt(base, idx.T), elemType(base.Ty)}
 		ex.assumeFact(p, ex.c.typeInvariant(v))
+		if ex.c.SortOf(v.Ty) == "Ref" && !p.inOld {
+			ex.bornBefore(p, v.T)
+		}
 		return []Value{v}
 	case *types.Pointer:
 		if _, isArr := bt.Elem().Underlying().(*types.Array); isArr {
@@ -788,4 +805,16 @@ func (ex *Exec) linkErrorMethod(p *Path, v Value, boxed Value) {
 	if len(res) == 1 {
 		ex.assumeFact(p, implies(not(ex.isNilTerm(v)), eq(ex.errMsg(boxed), res[0].T)))
 	}
+}
+
+func isDigits(s string) bool {
+	if s == "" {
+		return false
+	}
+	for _, r := range s {
+		if r < '0' || r > '9' {
+			return false
+		}
+	}
+	return true
 }
